@@ -56,8 +56,8 @@ func (tr *transport) Read(p []byte) (int, error) {
 //go:norace
 func (tr *transport) noteIn(b []byte) {
 	txt := strings.TrimRight(string(b), "\n")
-	if len(txt) > 300 {
-		txt = txt[:300] + fmt.Sprintf("...(%d bytes)", len(b))
+	if len(txt) > 6000 {
+		txt = txt[:6000] + fmt.Sprintf("...(%d bytes)", len(b))
 	}
 	harnessLock()
 	tr.seq++
